@@ -156,7 +156,9 @@ class Sched:
       t = self._tls.t
       if not t.atomic:
         code = frame.f_code
-        loc = '%s:%d' % (code.co_filename[len(self._gin_dir):], frame.f_lineno)
+        # (an opcode event inside exception clean-up code carries no line)
+        loc = '%s:%d' % (code.co_filename[len(self._gin_dir):],
+                         frame.f_lineno or 0)
         self._yield(t, loc, code.co_name)
     return self._local_trace
 
